@@ -336,6 +336,25 @@ pub fn main(args: &[String]) {
                 }
             }
         }
+        "chains" => {
+            // arithmetic trees over + - * / with 3..7 literal leaves (divisors are non-zero literals), rendered with the parentheses
+            // the tree needs: every way a grouped operand can sit inside a chain of the same or another family
+            fn tree(r: &mut StdRng, leaves: usize) -> Value {
+                if leaves == 1 {
+                    return lit(r.gen_range(0..10));
+                }
+                let left = r.gen_range(1..leaves);
+                let op = ["sum", "diff", "prod", "quot", "diff", "sum"][r.gen_range(0..6)];
+                let a = tree(r, left);
+                let b = if op == "quot" && leaves - left == 1 { lit(r.gen_range(1..10)) } else if op == "quot" { json!({"k": "bin", "op": "sum", "a": tree(r, leaves - left), "b": lit(100)}) } else { tree(r, leaves - left) };
+                json!({"k": "bin", "op": op, "a": a, "b": b})
+            }
+            for i in 0..count {
+                let n = r.gen_range(3..8);
+                let t = tree(&mut r, n);
+                emit(c_pipe::unparse(&t, i % 4), "chains");
+            }
+        }
         "groups" => {
             // definition groups built to be accepted and to terminate: functions calling later and earlier siblings, functions
             // recursive on a decreasing argument that also call a sibling, computed definitions reached through functions, local
